@@ -28,6 +28,7 @@ import (
 	"github.com/ipld/go-car/v2/blockstore"
 	"github.com/ipld/go-car/v2/storage"
 	"github.com/ipld/go-car/v2/verifhook"
+	mh "github.com/multiformats/go-multihash"
 )
 
 type wop struct {
@@ -458,7 +459,13 @@ func (s *crSession) evalCrash(sid, i, k int, dir string) crObs {
 			}
 		}
 	} else {
-		for _, b := range alphabet {
+		probe := append([]*ABlock{}, alphabet...)
+		for _, id := range o.Put { // blocks of the session that are not part of the TLA+ alphabet (synthetic ones)
+			if b := alphaByID[id]; b != nil && len(id) > 0 && id[0] == 'g' {
+				probe = append(probe, b)
+			}
+		}
+		for _, b := range probe {
 			if isIdentityCid(b.Cid) && !s.O.Ident {
 				continue
 			}
@@ -619,8 +626,32 @@ var _ = runtime.NumCPU
 
 // ---- driver --------------------------------------------------------------------------------
 
+// manyBlocks registers n synthetic sha2-256 blocks (ids g00, g01, ...) for the crash harness only: the crash
+// relation treats block ids as opaque, so they need not be part of the TLA+ alphabet.
+func manyBlocks(n int) []string {
+	var ids []string
+	for i := 0; i < n; i++ {
+		id := fmt.Sprintf("g%02d", i)
+		if _, ok := alphaByID[id]; !ok {
+			data := []byte(fmt.Sprintf("synthetic block %d of the crash harness", i))
+			h, _ := mh.Sum(data, mh.SHA2_256, -1)
+			c := cid.NewCidV1(cid.Raw, h)
+			b := &ABlock{ID: id, Cid: c, Data: data, DataI: "x" + id, Valid: true, Ver: 1, Codec: cid.Raw, HCode: mh.SHA2_256, DLen: 32}
+			alphaByID[id] = b
+			if _, ok := alphaByCid[c.KeyString()]; !ok {
+				alphaByCid[c.KeyString()] = b
+			}
+			dataByID["x"+id] = data
+		}
+		ids = append(ids, id)
+	}
+	return ids
+}
+
 func crashShapes(thorough bool) []crShape {
 	sh := []crShape{
+		// an index of more than 1 KiB: cut between index and header, its first bytes read as one long section
+		{"thirty-blocks", []crPhase{{false, manyBlocks(30), true, false, 0}}},
 		{"put2-finalize", []crPhase{{false, []string{"b1", "b4"}, true, false, 0}}},
 		{"empty-finalize", []crPhase{{false, nil, true, false, 0}}},
 		{"boundary-blocks", []crPhase{{false, []string{"b12", "b13", "b5"}, true, false, 0}}},
@@ -657,6 +688,8 @@ func crashConfigs(thorough bool) []sOpts {
 		{Maxcid: 2048, Codec: "mh", Ipad: 100, Zero: true},
 		// data padding of the size of a small archive: offsets computed relative to the payload and to the file differ by it
 		{Maxcid: 2048, Codec: "mh", Dpad: 1024},
+		// ZeroLengthSectionAsEOF alone (no padding): a resume's scan that runs into index bytes ends at their first zero byte
+		{Maxcid: 2048, Codec: "mh", Zero: true},
 	}
 	if thorough {
 		c = append(c, sOpts{Maxcid: 2048, Codec: "mh", Dpad: 1413, Ipad: 1407, Ident: true, Dup: true},
